@@ -172,13 +172,16 @@ META['C02'] = dict(outside='global non-interference over all output buffers of a
 
 # ----------------------------------------------------------------------------- C12
 _c12_fns = ['C_Encrypt', 'C_EncryptUpdate', 'C_EncryptFinal', 'C_Decrypt', 'C_DecryptUpdate', 'C_DecryptFinal', 'C_Digest', 'C_DigestUpdate', 'C_DigestFinal',
-            'C_Sign', 'C_SignUpdate', 'C_SignFinal', 'C_Verify', 'C_VerifyUpdate', 'C_VerifyFinal']
+            'C_Sign', 'C_SignUpdate', 'C_SignFinal', 'C_Verify', 'C_VerifyUpdate', 'C_VerifyFinal', 'C_FindObjects', 'C_FindObjectsFinal']
 OBLIGATIONS['C12'] = [
     Ob('flow_' + fn[2:].lower(), 'C12/op_flow.cpp', ENTRY_REAL_NOP11 + ['object_store/FindOperation.cpp'], defines={'FN': i, 'BS_CAP': 40, 'MODEL_OUT_MAX': 24}, unwind=42, caps='common/entry_caps.h',
        desc='%s from an arbitrary session state: wrong/absent operation => CKR_OPERATION_NOT_INITIALIZED and no crypto call; length query / CKR_BUFFER_TOO_SMALL leave the operation active and call no crypto; finished or failed operation is gone; never writes beyond the announced length; no private-key output while re-authentication is pending' % fn,
        bounds='input <= 20 bytes, announced output length <= 32 (buffer 40 with canaries), block size 8/16, tag <= 16, buffered < block', timeout=600)
     for i, fn in enumerate(_c12_fns)]
 OBLIGATIONS['C12'] += [o for o in OBLIGATIONS['C07'] if o.name.startswith('init_')]
+OBLIGATIONS['C12'] += [Ob('find_init_fail', 'C12/find_fail.cpp', ENTRY_REAL_NOP11 + ['object_store/FindOperation.cpp'], defines={'BS_CAP': 6, 'MODEL_OUT_MAX': 4, 'VSTL_CAP': 2}, unwind=8, caps='common/entry_caps.h',
+    stubs={'_ZN5Token10getObjectsERSt3setIP8OSObjectSt4lessIS2_EvE': 'stub_token_getObjects', '_ZN18SessionObjectStore10getObjectsEmRSt3setIP8OSObjectSt4lessIS2_EvE': 'stub_sos_getObjects', '_ZN5Token7decryptERK10ByteStringRS0_': 'det_token_decrypt'},
+    desc='C_FindObjectsInit over one concrete private token object whose encrypted label may fail to decrypt: a failing Init leaves no active operation; a succeeding one captures the object exactly when the decrypted label equals the template value', bounds='one concrete object, template (CKA_LABEL, 1 symbolic byte)')]
 META['C12'] = dict(outside='what OpenSSL returns where it deviates from the sizes the SoftHSM code itself computes; call sequences longer than one step (each call is run from an arbitrary state of the session)', assumptions=['crypto back end = sink monitors with nondeterministic results and output lengths (harness/common/crypto_model.h)'])
 
 # ----------------------------------------------------------------------------- C19
@@ -188,13 +191,13 @@ FIND_STUBS = {'_ZN5Token10getObjectsERSt3setIP8OSObjectSt4lessIS2_EvE': 'stub_to
 OBLIGATIONS['C19'] = [
     Ob('findop_batching', 'C19/findop_unit.cpp', ['object_store/FindOperation.cpp'], defines={}, unwind=6, caps='C19/caps.h',
        desc='FindOperation::retrieveHandles + eraseHandles from an arbitrary pending set: a batch returns the min(n,max) smallest handles in order, removes exactly those, writes nothing beyond the count; an empty batch loses nothing', bounds='<= 3 pending handles, batch size 0..4'),
-    Ob('find_filter', 'C19/find_entry.cpp', ENTRY_REAL_NOP11 + ['object_store/FindOperation.cpp'], defines={'BS_CAP': 9, 'MODEL_OUT_MAX': 4, 'NOBJ': 1, 'TMAX': 0, 'VSTL_CAP': 2}, unwind=5, stubs=FIND_STUBS, caps='common/entry_caps.h',
+] + [
+    Ob('find_%s' % name, 'C19/find_entry.cpp', ENTRY_REAL_NOP11 + ['object_store/FindOperation.cpp'], defines={'BS_CAP': 9, 'MODEL_OUT_MAX': 4, 'NOBJ': 1, 'TCNT': cnt, 'T0': t0, 'T1': t1, 'SHAPE_CAN_MATCH': 0 if name == 'unknown' else 1, 'SHAPE_DECRYPTS': 1 if 'label' in name else 0}, unwind=5, stubs=FIND_STUBS, caps='common/entry_caps.h', thorough={'defines': {'NOBJ': 2}, 'timeout': 1500},
        unwind_rules=[(r'^harness', 40), (r'ByteString|ir_mem|memcmp|model_fill|havoc|token_decrypt|token_encrypt|ref_match', 11)],
-       desc='C_FindObjectsInit with an empty template over a symbolic object: exactly the valid objects the session may see are captured (private ones only with the user logged in - not in public or SO sessions - and then no handle is even issued), C_FindObjects batches, operation state', bounds='1 object, empty template, batch size 0..2', timeout=3000, tiers=('thorough',)),
-    Ob('find_init', 'C19/find_entry.cpp', ENTRY_REAL_NOP11 + ['object_store/FindOperation.cpp'], defines={'BS_CAP': 9, 'MODEL_OUT_MAX': 4, 'NOBJ': 1, 'TMAX': 1}, unwind=5, stubs=FIND_STUBS, caps='common/entry_caps.h',
-       unwind_rules=[(r'^harness', 40), (r'ByteString|ir_mem|memcmp|model_fill|havoc|token_decrypt|token_encrypt|ref_match', 11)],
-       desc='C_FindObjectsInit + C_FindObjects over two symbolic objects and a symbolic template: the captured handle set equals the reference matcher (sound and complete), private objects invisible unless the user is logged in (no handle issued), batches return each handle exactly once and never write beyond ulMaxObjectCount, a failed Init leaves no operation',
-       bounds='1 object, template <= 1 entry over CKA_TOKEN/CLASS/LABEL/ID/PRIVATE/unknown with lengths 0..8, byte values <= 2 bytes, batch size 0..2', timeout=3000, tiers=('thorough',))]
+       desc='C_FindObjectsInit + C_FindObjects over one object (thorough tier: two) (values symbolic: valid, private, token, class, 1-byte label - encrypted when private, possibly undecryptable; object 0 has an empty CKA_ID, object 1 none) with template types (%s) and symbolic lengths/values: captured handle set == reference matcher (sound and complete); private objects invisible unless the user is logged in (no handle issued); batches; a failed Init leaves no operation' % name,
+       bounds='1 object (thorough: 2) of the stated shape, template of %d entries with lengths in {0,1,2,8}, batch size 0..2' % cnt, timeout=900, mem=16,
+       tiers=('quick', 'thorough') if name in ('empty', 'label', 'unknown') else ('thorough',))
+    for (name, cnt, t0, t1) in (('empty', 0, 0, 0), ('label', 1, 'CKA_LABEL', 0), ('class', 1, 'CKA_CLASS', 0), ('token_label', 2, 'CKA_TOKEN', 'CKA_LABEL'), ('id', 1, 'CKA_ID', 0), ('unknown', 1, '0x80001234UL', 0))]
 META['C19'] = dict(outside='populations of more than 2 objects / templates of more than 2 entries; candidate collection inside OSToken / SessionObjectStore (the two sources are cut: they deliver the objects of this token / slot)', assumptions=['tagging model of Token::decrypt'])
 
 # ----------------------------------------------------------------------------- C09
@@ -212,3 +215,44 @@ OBLIGATIONS['C09'] = [
        desc='C_CreateObject: a failed call leaves no handle and destroys the half-built object; private objects only for the logged-in user, token objects only through RW sessions; imported keys get LOCAL/ALWAYS_SENSITIVE/NEVER_EXTRACTABLE false',
        bounds='template of 1..3 entries (CKA_CLASS in {DATA, SECRET_KEY/AES}); creation / init / saveTemplate are sinks with symbolic results')]
 META['C09'] = dict(outside='SQLite backend; multi-object effects of key-pair generation; the policy engine behind saveTemplate (C02/C08)', assumptions=[])
+
+# ----------------------------------------------------------------------------- C04 / C14 (Token level)
+PIN_STUBS = {'_ZN17SecureDataManager10initObjectEv': 'stub_initObject', '_ZN17SecureDataManager13pbeEncryptKeyERK10ByteStringRS0_': 'stub_pbe',
+             '_ZN17SecureDataManager5loginERK10ByteStringS2_': 'stub_login', '_ZN17SecureDataManager6remaskER10ByteString': 'stub_remask',
+             '_ZN11ObjectStore8newTokenERK10ByteString': 'stub_newToken', '_ZN11ObjectStore12destroyTokenEP16ObjectStoreToken': 'stub_destroyToken'}
+PIN_REAL = ['slot_mgr/Token.cpp', 'data_mgr/SecureDataManager.cpp', 'data_mgr/ByteString.cpp', 'crypto/SymmetricAlgorithm.cpp', 'crypto/SymmetricKey.cpp', 'crypto/AESKey.cpp',
+            'crypto/AsymmetricAlgorithm.cpp', 'crypto/MacAlgorithm.cpp', 'crypto/HashAlgorithm.cpp']
+def _pin(op, name, fn, what):
+    return Ob('tokpin_' + name, 'C04/token_pin.cpp', PIN_REAL, defines={'OP': op, 'BS_CAP': 32}, unwind=34, stubs=PIN_STUBS, caps='C03/caps.h', noinline=True,
+              desc='Token::%s (real) + SecureDataManager PIN guards over the ideal PIN model: %s' % (fn, what), bounds='PINs <= 2 symbolic bytes (all of them, including empty, prefixes, one-bit neighbours and the other user\'s PIN); ideal PIN model replaces the cryptography')
+OBLIGATIONS['C04'] = [
+    _pin(0, 'setuserpin', 'setUserPIN', 'OK only with the correct old user PIN and a non-empty new PIN; afterwards memory and disk carry the new PIN, the SO PIN is untouched, login state preserved; a rejected attempt changes nothing'),
+    _pin(1, 'setsopin', 'setSOPIN', 'OK only for the logged-in SO with the correct old SO PIN; user PIN untouched'),
+    _pin(2, 'inituserpin', 'initUserPIN', 'OK only while logged in, sets exactly the given PIN in memory and on disk, SO PIN untouched'),
+    OBLIGATIONS['C03'][-1]]   # clogin: the caller's PIN bytes reach the token unmodified
+OBLIGATIONS['C14'] = [
+    _pin(3, 'reinit', 'createToken (initialised token)', 'OK only with the correct SO PIN; resets the token, keeps the SO PIN, removes the user PIN on disk AND in memory, nobody logged in; wrong PIN => no reset, nothing changed'),
+    _pin(4, 'freshinit', 'createToken (free slot)', 'new token gets the given SO PIN and no user PIN; failure leaves no half-initialised token'),
+    [o for o in OBLIGATIONS['C03'] if o.name == 'sess_inittoken_gate'][0]]
+META['C04'] = dict(outside='the cryptography (that different PINs give different PBE keys; the 2^-24 magic collision), PIN lengths above 2 bytes at the Token level (byte exactness of the caller PIN for <= 16 bytes is obligation clogin), persistence across processes (blob bytes are handed to the token object; their file round trip is C05)', assumptions=['ideal PIN model: pbeEncryptKey(pin) is injective in the PIN, login accepts iff the blob wraps exactly this PIN'])
+META['C14'] = dict(outside='softhsm2-util, directory scanning at start-up, SQLite, slot-id derivation from the serial', assumptions=['ideal PIN model', 'C_InitToken is only reached without sessions (obligation sess_inittoken_gate), hence with nobody logged in (C03 INV)'])
+
+
+# ----------------------------------------------------------------------------- C17 (no crash / no exception / no out-of-range access)
+def _c17(ob):
+    o = Ob.__new__(Ob); o.__dict__.update(ob.__dict__)
+    o.name = ob.name + '_safe'; o.throw_assert = True; o.defines = dict(ob.defines)
+    o.desc = ob.desc + ' - re-run with every C++ exception (it would reach main.cpp\'s catch-all and exit()) and every out-of-range container index as an assertion failure'
+    return o
+_C17_QUICK = ('flow_encrypt', 'flow_decrypt', 'flow_sign', 'flow_verify', 'flow_decryptfinal', 'flow_findobjects', 'flow_findobjectsfinal', 'init_encrypt', 'obj_getattr', 'obj_copy')
+def _c17t(o):
+    x = _c17(o); x.tiers = ('quick', 'thorough') if o.name in _C17_QUICK else ('thorough',)
+    if o.name == 'flow_findobjects': x.checks = True   # pointer checks: a NULL find-operation object must not be dereferenced
+    return x
+OBLIGATIONS['C17'] = [_c17t(o) for o in OBLIGATIONS['C12'] + C01_OBJ + [x for x in OBLIGATIONS['C09'] if x.name == 'create_object'] if not o.name.startswith('find_init')] + \
+    [o for o in OBLIGATIONS['C13'] if o.name.startswith('unpad_any')] + [o for o in OBLIGATIONS['C05'] if o.name.startswith('decode')]
+META['C17'] = dict(outside='call sequences (each entry point is run once from an arbitrary state satisfying the stated session invariants); entry points not harnessed; OpenSSL internals; caller buffers smaller than announced; files larger than the stated bounds; pointer-provenance undefined behaviour that no sanitizer confirms',
+                   assumptions=['a request to grow a byte string / container to >= 2^31 elements is what makes the real std::vector throw (length_error / bad_alloc); smaller growth beyond the model capacity is only outside the bound'])
+
+# C01 also claims the search filter (private objects invisible unless the user is logged in)
+OBLIGATIONS['C01'] = OBLIGATIONS['C01'] + [o for o in OBLIGATIONS['C19'] if o.name == 'find_empty'] + [o for o in OBLIGATIONS['C09'] if o.name == 'create_object'] + [o for o in OBLIGATIONS['C11'] if o.name == 'hm_tokenLoggedOut']
